@@ -30,6 +30,16 @@ class EvalReturn(Exception):
         self.value = value
 
 
+class Builtin:
+    """A builtin function used as a value (`combine = any`)."""
+
+    def __init__(self, name: str):
+        self.name = name
+
+    def __repr__(self):
+        return f"<builtin {self.name}>"
+
+
 class Opaque:
     """A value the evaluator knows nothing about."""
 
@@ -107,6 +117,8 @@ class Evaluator:
                 return v
         if e.id in ("True", "False", "None"):
             return {"True": True, "False": False, "None": None}[e.id]
+        if e.id in ("any", "all"):
+            return Builtin(e.id)
         return Opaque(e.id)
 
     def _e_Tuple(self, e):
@@ -349,6 +361,16 @@ class Evaluator:
             if not isinstance(v, Opaque) and names and all(n in table for n in names) and (v is None or type(v) in table.values()):
                 return isinstance(v, tuple(table[n] for n in names))
             raise Unknown("isinstance on a value outside the finite domain")
+        if isinstance(f, ast.Name) and isinstance(self.env.get(f.id), Builtin):
+            f = ast.copy_location(ast.Name(id=self.env[f.id].name, ctx=ast.Load()), f)
+        if isinstance(f, ast.Name) and f.id in ("any", "all") and len(e.args) == 1 and not e.keywords:
+            items = self.eval(e.args[0])
+            if isinstance(items, Opaque):
+                return Opaque(f.id)
+            items = list(items)
+            if not all(isinstance(x, (bool, int, float, str, type(None))) for x in items):
+                return Opaque(f.id)
+            return any(items) if f.id == "any" else all(items)
         if isinstance(f, ast.Name):
             args = [self.eval(a) for a in e.args]
             if any(isinstance(a, Opaque) for a in args):
@@ -430,6 +452,8 @@ class Evaluator:
         sub = Evaluator(env, self.on_call, self.on_attr, self.on_subscript, self.on_store)
         sub.loops, sub.with_binds_value, sub.globals_env, sub.on_name, sub.on_def = self.loops, self.with_binds_value, self.globals_env, self.on_name, self.on_def
         sub.trace = self.trace
+        if hasattr(self, "fn"):
+            sub.fn = self.fn  # type: ignore[attr-defined]
         if isinstance(lf.node, ast.Lambda):
             return sub.eval(lf.node.body)
         try:
@@ -437,6 +461,27 @@ class Evaluator:
         except EvalReturn as r:
             return r.value
         return None
+
+    def apply_local(self, lf: "LocalFunc", args=(), kwargs=None):
+        """Call a local function with already evaluated arguments."""
+        names = {}
+        call = ast.Call(func=ast.Name(id="<local>", ctx=ast.Load()), args=[], keywords=[])
+        saved = dict(self.env)
+        try:
+            for i, v in enumerate(args):
+                names[f"__arg{i}"] = v
+                call.args.append(ast.Name(id=f"__arg{i}", ctx=ast.Load()))
+            for k, v in (kwargs or {}).items():
+                names[f"__kw_{k}"] = v
+                call.keywords.append(ast.keyword(arg=k, value=ast.Name(id=f"__kw_{k}", ctx=ast.Load())))
+            self.env.update(names)
+            return self._call_local(lf, call)
+        finally:
+            for k in names:
+                if k in saved:
+                    self.env[k] = saved[k]
+                else:
+                    self.env.pop(k, None)
 
     def _e_Lambda(self, e):
         return LocalFunc(e, self.env)
